@@ -396,10 +396,10 @@ func main() {
 	}
 
 	segs := tierSegs(*tier)
-	bound := fmt.Sprintf("histories of length <= %d (completed %d); level 1: full alphabet of %d operations = all strings of <= %d segments over %v, abs/rel, as-is/trailing-slash/doubled-slash x %d single-path calls + %d-string core squared x Rename/Link/Symlink + Getwd + %d fixed Glob patterns + %d strings naming the prefix sibling %s of B x the single-path calls + base.Chdir(d) on the base itself, d in %v, each followed by Getwd, Abs(\"f\"), Stat(\"f\") through the wrapper + through the view sv=Sub(d), d in %v: %d operand strings x the single-path calls and %d operand pairs x Rename/Link/Symlink on sv (level 1 only) + sv.Symlink(t,%q) for %d targets t followed either by Lstat, Stat, ReadFile, ReadDir of the link through the wrapper and Stat, ReadFile through sv, or by WriteFile through the wrapper and through sv (all levels); + %d strings and %d pairs naming the base-side symbolic links %v + %d strings through the links of the variant out-links (level 1); level k >= 2: Getwd, the Glob patterns, the base.Chdir operations, the Sub-Symlink operations and the operations whose path operands are relative or contain '..' and have <= %v segments (levels 2..): %d operations at level 2, %d at level 3",
-		d, depthDone, perLevel[1], segs[0], segAlphabet, len(singleCalls), len(pairCore), len(fixedGlobs), len(siblingStrings), siblingPath, baseChdirTargets, subDirs, len(subPaths), len(subPairs), subLinkName, len(subLinkTargets), len(linkStrings), len(linkPairs), baseLinks, len(outLinkStrings), segs[1:], perLevel[2], perLevel[3])
+	bound := fmt.Sprintf("histories of length <= %d (completed %d); level 1: full alphabet of %d operations = all strings of <= %d segments over %v, abs/rel, as-is/trailing-slash/doubled-slash x %d single-path calls (Chown and Lchown, the following and the not-following form, both with the owner %d:%d that nothing has, on every string incl. those naming the base-side symbolic links; the owner of every node, links included, is part of the compared node graphs) + %d-string core squared x Rename/Link/Symlink + Getwd + %d fixed Glob patterns + %d strings naming the prefix sibling %s of B x the single-path calls + base.Chdir(d) on the base itself, d in %v, each followed by Getwd, Abs(\"f\"), Stat(\"f\") through the wrapper + through the view sv=Sub(d), d in %v: %d operand strings x the single-path calls and %d operand pairs x Rename/Link/Symlink on sv (level 1 only) + sv.Symlink(t,%q) for %d targets t followed either by Lstat, Stat, ReadFile, ReadDir of the link through the wrapper and Stat, ReadFile through sv, or by WriteFile through the wrapper and through sv (all levels); + %d strings and %d pairs naming the base-side symbolic links %v + %d strings through the links of the variant out-links (level 1); level k >= 2: Getwd, the Glob patterns, the base.Chdir operations, the Sub-Symlink operations and the operations whose path operands are relative or contain '..' and have <= %v segments (levels 2..): %d operations at level 2, %d at level 3",
+		d, depthDone, perLevel[1], segs[0], segAlphabet, len(singleCalls), ownUID, ownGID, len(pairCore), len(fixedGlobs), len(siblingStrings), siblingPath, baseChdirTargets, subDirs, len(subPaths), len(subPairs), subLinkName, len(subLinkTargets), len(linkStrings), len(linkPairs), baseLinks, len(outLinkStrings), segs[1:], perLevel[2], perLevel[3])
 
-	bound += fmt.Sprintf("; handles that outlive their name: on every string of the single-path calls (not through Sub views) the %d compound calls %v = open a handle on p (read-write, else read-only), then through the same file system Rename(p,%q) | RemoveAll(p) | Rename(p,%q) followed by a new object of the other kind under the name p, then the methods Name, Stat, ReadDir, Readdirnames, Read, ReadAt, Seek, Write, WriteAt, WriteString, Truncate, Sync, Chmod, Chown, Fd, Stat, Chdir (+ Getwd, and ReadDir(\".\") if it succeeded), Close, Stat of the handle (levels as for the other calls on the string); the mode argument: on the strings of <= %d segments the calls that take a mode with, or'ed into the permission bits of the plain call, the bits (letters of fs.FileMode.String, - = none) %s, OpenChmod = File.Chmod on a handle opened read-only", len(handleCalls), handleCalls, handleFree, handleFree, modeSegs(*tier), modeArgsText(*tier))
+	bound += fmt.Sprintf("; handles that outlive their name: on every string of the single-path calls (not through Sub views) the %d compound calls %v = open a handle on p (read-write, else read-only), then through the same file system Rename(p,%q) | RemoveAll(p) | Rename(p,%q) followed by a new object of the other kind under the name p, then the methods Name, Stat, ReadDir, Readdirnames (each with the count -1, then with the counts %v), Read, ReadAt, Seek, Write, WriteAt, WriteString, Truncate, Sync, Chmod, Chown, Fd, Stat, Chdir (+ Getwd, and ReadDir(\".\") if it succeeded), Close, and on the closed handle Stat, ReadDir and Readdirnames with the counts %v (levels as for the other calls on the string); count arguments: the compound call Open (also through Sub views) calls Readdirnames(-1), then ReadDir and Readdirnames with the counts %v, Read, Close - on whatever the handle is (directory, regular file; closed: the handle calls), the path inside every error compared with the reference's; the mode argument: on the strings of <= %d segments the calls that take a mode with, or'ed into the permission bits of the plain call, the bits (letters of fs.FileMode.String, - = none) %s, OpenChmod = File.Chmod on a handle opened read-only", len(handleCalls), handleCalls, handleFree, handleFree, listCountsArgs, listCountsArgs, listCountsArgs, modeSegs(*tier), modeArgsText(*tier))
 
 	bound += fmt.Sprintf("; variant systems: for every base type the wrapper built with each spelling of B in %v (a relative one from the base's cwd /top) - first level reduced to the %d operations that are not single-path calls on strings of more than 2 segments, next levels only from the states in which the base's cwd has moved to a cleanly spelled directory -, and MemFS+out-links with the links %v in B, first level (same %d operations) only; MemFS+ro: BasePathFS(rofs.New(base)) against rofs.New(reference), the whole first level; MemFS+user: base and reference with an identity manager, calls made by the non-administrator user %q in a world with %s, first level = the same %d operations, which include %d strings and %d pairs naming that world", spellingList(), compactOps(ops), outLinks, compactOps(ops), userName, "w (the user's) holding w/f (the user's) and the root-owned non-empty w/locked, the root-owned 0700 directory p with p/f, the root-owned 0600 file s, everything else root-owned 0755/0644", compactOps(ops), len(userStrings), len(userPairs))
 
